@@ -264,22 +264,17 @@ impl<T: Clone + Into<Vec<u8>>> FindNodeContext<T> {
             };
         }
 
-        for (peer, instant) in self.pending.values() {
-            if instant.elapsed() > self.peer_timeout {
-                tracing::trace!(
-                    target: LOG_TARGET,
-                    query = ?self.config.query,
-                    ?peer,
-                    elapsed = ?instant.elapsed(),
-                    "peer no longer counting towards parallelism factor"
-                );
-                self.pending_responses = self.pending_responses.saturating_sub(1);
-            }
-        }
-
         // At this point, we either have pending responses or candidates to query; and we need more
-        // results. Ensure we do not exceed the parallelism factor.
-        if self.pending_responses == self.config.parallelism_factor {
+        // results. Ensure we do not exceed the parallelism factor. A peer that has not answered
+        // within the peer timeout no longer counts towards it, but it must only stop counting
+        // once: recompute the number of in-flight requests from the pending set instead of
+        // decrementing the counter on every call.
+        self.pending_responses = self
+            .pending
+            .values()
+            .filter(|(_, instant)| instant.elapsed() <= self.peer_timeout)
+            .count();
+        if self.pending_responses >= self.config.parallelism_factor {
             return None;
         }
 
